@@ -395,6 +395,32 @@ PROPS["C20"] = dict(
 )
 
 
+PROPS["C13"] = dict(
+    level="model_checking",
+    technique="bounded symbolic execution of go/ssa (gosmt) with baton-scheduled goroutines: the real Hnsw Insert/Remove/Search/Get/Len run in 2-3 goroutines; every interleaving at lock acquisitions and sync/atomic operations within the preemption bound is a path; operation kinds, ids and levels are path decisions (no solver variables: verdict by exhaustive path enumeration of the symbolic executor)",
+    explanation="reduced claim (DESIGN.md section 5 C13): (a) one writer with concurrent readers, as the server uses the index: no panic, no state with every goroutine blocked; insert/remove outcomes and final contents (Get per id, Len) explained by a sequential order; a concurrent search returns only items present initially or inserted concurrently, with true scores, ascending, unique, at most k; at quiescence the C01 search guarantees hold; (b) two concurrent inserts: the same; (c) concurrent insert/remove and remove/remove: explored as well; the four entrypoint hand-over races they expose are listed known findings (natively demonstrated by findings/C13_stress_test.go.txt), anything else is a violation. Plain-memory data races are invisible to this executor (code between two scheduling points runs atomically) and are not decided",
+    runs={
+        "quick": [
+            dict(pkg="./index", entry="VerifC13", bounds="cfg=0,preempt=2,init=2,ids=3,maxlevel=1,writers=1,kinds=4", reach=["joined", "end"]),
+            dict(pkg="./index", entry="VerifC13", bounds="cfg=0,preempt=2,init=2,ids=3,maxlevel=1,kinds=1", reach=["joined", "end"]),
+            dict(pkg="./index", entry="VerifC13", bounds="cfg=0,preempt=2,init=2,ids=3,maxlevel=1,kinds=2", known_no_replay=True, vio_grace=0, reach=["joined", "end"]),
+        ],
+        "thorough": [
+            dict(pkg="./index", entry="VerifC13", bounds="cfg=0,preempt=3,init=2,ids=3,maxlevel=1,writers=1,kinds=4", max_seconds=3000, reach=["joined", "end"]),
+            dict(pkg="./index", entry="VerifC13", bounds="cfg=4,preempt=2,init=3,ids=4,maxlevel=1,writers=1,kinds=4", max_seconds=3000, reach=["joined", "end"]),
+            dict(pkg="./index", entry="VerifC13", bounds="cfg=2,preempt=2,init=2,ids=3,maxlevel=1,writers=1,kinds=4", max_seconds=3000, reach=["joined", "end"]),
+            dict(pkg="./index", entry="VerifC13", bounds="cfg=0,preempt=1,init=2,ids=3,maxlevel=1,writers=1,kinds=4,threads=3", max_seconds=3000, reach=["joined", "end"]),
+            dict(pkg="./index", entry="VerifC13", bounds="cfg=0,preempt=2,init=2,ids=3,maxlevel=1,kinds=2", known_no_replay=True, vio_grace=0, max_seconds=3000, reach=["joined", "end"]),
+        ],
+    },
+    outside="data races on plain memory and weak-memory effects (the executor interleaves at lock acquisitions, channel operations and atomic operations only; run the Go race detector for those); more than 3 goroutines; more than one operation per goroutine; vectors are fixed 1-D points; timing/linearization points of searches beyond 'present initially or inserted concurrently'",
+    assumptions=COMMON_ASSUME + ["goroutines are interleaved at lock acquisitions, channel operations, go statements and sync/atomic operations (verifrt.AtomicSwitch); code between two such points runs atomically",
+                                 "at most `preempt` preemptions per schedule (a goroutine that blocks or ends does not consume the budget)"],
+    replay_attempts=200000,
+    gomaxprocs1=True,
+)
+
+
 def _c15(pid, tier, seed):
     import c15
     return c15.run(pid, tier, seed)
